@@ -300,7 +300,7 @@ def r_copy_loops(cg, rep):
 
 
 def r_addr(cg, rep):
-    rep.rule('R04.4', 'gen_addr: a member is at base + member offset, *p is at the value of p, (a,b) at the address of b after evaluating a, aggregate-valued calls/assignments/conditionals at the address they yield; anything else is diagnosed', floor=9)
+    rep.rule('R04.4', 'gen_addr: a member is at base + member offset, *p is at the value of p, (a,b) at the address of b after evaluating a, aggregate-valued calls/assignments/conditionals at the address they yield; anything else is diagnosed', floor=14)
     where = '%s:%d' % (U, cg.cu.fn('gen_addr').line)
     # member
     def mk(ctx):
@@ -347,6 +347,21 @@ def r_addr(cg, rep):
     want = {'ND_VAR', 'ND_DEREF', 'ND_COMMA', 'ND_MEMBER', 'ND_FUNCALL', 'ND_ASSIGN', 'ND_COND', 'ND_VLA_PTR'}
     rep.ob('R04.4', '%s:gen_addr:kinds-with-an-address' % U, accepted == want,
            'gen_addr computes an address for %s; the kinds that denote objects are %s (others must be diagnosed as "not an lvalue")' % (sorted(accepted ^ want), sorted(want)), where=where)
+    # locals: an ordinary local lives at offset(%rbp); a VLA object lives where the hidden pointer stored at offset(%rbp) points, and
+    # ND_VLA_PTR designates that hidden pointer slot itself
+    SLOT = ('addr', ('init', 'rbp'), '{voff}')
+    for kind, cat, want, what in (('ND_VAR', 'vla', ('mem', 64, SLOT), 'the block its hidden pointer (the 8 bytes at offset(%rbp)) points to'),
+                                  ('ND_VAR', 'int', ('addrof', 64, SLOT), 'offset(%rbp)'), ('ND_VAR', 'array', ('addrof', 64, SLOT), 'offset(%rbp)'),
+                                  ('ND_VAR', 'union', ('addrof', 64, SLOT), 'offset(%rbp)'), ('ND_VLA_PTR', 'vla', ('addrof', 64, SLOT), 'the hidden pointer slot offset(%rbp)')):
+        def mkv(ctx, kind=kind, cat=cat):
+            v = Obj('Obj', lazy=True, label='var')
+            v.fields.update({'is_local': 1, 'offset': Sym('voff', 'int'), 'ty': cg.tcell('vty', only=(cat,))})
+            n = cg.node('node', kind)
+            n.fields['var'] = v
+            return n
+        pack = run_paths(cg, 'gen_addr', mkv)
+        report(rep, 'R04.4', '%s:gen_addr:%s/local-%s' % (U, kind, cat), pack,
+               lambda s, want=want, what=what, cat=cat: (s.reg['rax'] == want and not s.stores, 'the address of a local of class %s is %r, expected %s' % (cat, s.reg['rax'], what)), 'address of a local', where)
     # aggregate-valued assignments and conditionals denote the object they yield, whichever aggregate class it has
     for kind in ('ND_ASSIGN', 'ND_COND'):
         for cat in ('struct', 'union'):
@@ -714,3 +729,6 @@ def run(P, rep, tier):
     from ..lib_c04 import r_zero_fill
     rep.rule('R04.14', 'a block-scope object (declared local or compound literal) with an initializer is zero-filled as a whole before its assignment chain runs, for every class whose initializer can leave bytes unmentioned: array, struct and union', floor=6)
     r_zero_fill(P, rep, 'R04.14')
+    from ..lib_c04 import r_vla_object
+    rep.rule('R04.15', 'a declared VLA object designates a block of exactly the run-time size of its type: the declaration computes the size variable first, allocates that many bytes and stores the block address in the hidden pointer of the new variable', floor=2)
+    r_vla_object(P, rep, 'R04.15')
